@@ -152,6 +152,10 @@ impl NodeSession {
     }
 
     fn new_connection_id() -> u64 {
+        #[cfg(feature = "verif")]
+        if let Some(v) = ractor::verif::override_u64(ractor::verif::pt::OV_CONNECTION_ID) {
+            return v;
+        }
         let mut rng = rand::rng();
         loop {
             let connection_id = rng.random();
@@ -420,6 +424,8 @@ impl NodeSession {
             match msg {
                 node_protocol::node_message::Msg::Cast(cast_args) => {
                     if let Some(actor) = state.authorized_local_actor(cast_args.to) {
+                        #[cfg(feature = "verif")]
+                        ractor::verif::point(ractor::verif::pt::CL_DELIVER_LOCAL, cast_args.to, self.node_id);
                         let _ = actor.send_serialized(SerializedMessage::Cast {
                             variant: cast_args.variant,
                             args: cast_args.what,
@@ -431,6 +437,8 @@ impl NodeSession {
                     let to = call_args.to;
                     let tag = call_args.tag;
                     if let Some(actor) = state.authorized_local_actor(call_args.to) {
+                        #[cfg(feature = "verif")]
+                        ractor::verif::point(ractor::verif::pt::CL_DELIVER_LOCAL, call_args.to, self.node_id);
                         let (tx, rx) = ractor::concurrency::oneshot();
 
                         // send off the transmission in the serialized format, letting the message's own deserialization handle
@@ -597,6 +605,8 @@ impl NodeSession {
                             join.group,
                             cells.len()
                         );
+                        #[cfg(feature = "verif")]
+                        ractor::verif::point(ractor::verif::pt::CL_PG_JOIN, cells.len() as u64, self.node_id);
                         ractor::pg::join_scoped(join.scope, join.group, cells);
                     }
                 }
@@ -808,6 +818,8 @@ impl NodeSession {
         match state.remote_actors.get(&actor_pid) {
             Some(actor) => Ok(actor.clone()),
             _ => {
+                #[cfg(feature = "verif")]
+                ractor::verif::point(ractor::verif::pt::CL_SPAWN_PROXY, actor_pid, self.node_id);
                 let (remote_actor, _) = RemoteActor
                     .spawn_linked(
                         myself.clone(),
